@@ -187,6 +187,7 @@ class TrackerFamily(Family):
 
     def __init__(self, prop):
         self.prop = prop
+        self.race = prop == "C14"
         self.driver_args = ["tracker", prop]
         if prop == "C16":
             self.uses_gen = ("auditd.go",)
@@ -195,7 +196,12 @@ class TrackerFamily(Family):
         from .fam_conc import ConcFamily
         return ConcFamily(self.prop, "tracker")
 
+    def race_select(self, cases, tier):
+        return [c for c in cases if c.get("cb")][:6 if tier == "quick" else 30]
+
     def modes_for(self, c):
+        if c.get("cb"):
+            return (["cbconc"], ["cbconc"])
         if c.get("threads"):
             return (["conc"], ["conc"])
         if c.get("timed"):
@@ -210,6 +216,8 @@ class TrackerFamily(Family):
         return raw
 
     def harness_line(self, c):
+        if c.get("cb"):
+            return "%s %d %d %d" % ((c["id"],) + tuple(c["cb"]))
         if c.get("threads"):
             return self._conc().harness_line(c)
         if c.get("timed"):
@@ -225,6 +233,8 @@ class TrackerFamily(Family):
         return s
 
     def sample(self, c):
+        if c.get("cb"):
+            return {"callback_from_goroutines": c["cb"][0], "deliveries_each": c["cb"][1], "variant": c["cb"][2]}
         if c.get("threads"):
             return self._conc().sample(c)
         if c.get("timed"):
@@ -235,7 +245,7 @@ class TrackerFamily(Family):
         return "%s|%s" % (";".join(c["ops"]), rec.get("ispec"))
 
     def shrink_candidates(self, c):
-        if c.get("timed") or c.get("recorded") or c.get("threads"):
+        if c.get("timed") or c.get("recorded") or c.get("threads") or c.get("cb"):
             return []
         ops = c["ops"]
         out = []
@@ -288,6 +298,13 @@ class TrackerFamily(Family):
                     cs.append({"fail": "-", "ops": f[1].split(";"), "pre_obs": f[2], "recorded": True})
                     k += 1
             self.rule += "; plus %d kernel events of the repository's recorded audit logs through the real parser / reassembler / coalescer" % k
+        if p == "C14":
+            # the reassembler callback handed record groups of several sessions from several Go routines at once
+            # (the reassembler calls it outside its lock, from the parser and from the maintenance loop)
+            cb = [dict(ops=[], fail="-", cb=(g, n, v)) for g, n, v in ((2, 300, 0), (3, 200, 1), (2, 1500, 1), (4, 150, 0))] + \
+                 ([] if quick else [dict(ops=[], fail="-", cb=(g, 4000, v)) for g in (2, 3, 4, 6) for v in (0, 1)])
+            cs += cb
+            self.rule += "; plus %d runs of the reassembler callback fed by 2-6 Go routines at once (also under the race detector)" % len(cb)
         if p in ("C16", "C04"):
             # cleanup (and other deliveries) while another operation is stalled in an event write, free-running: the
             # cleanup must wait for the tracker and then take effect — judged against the sequential outcomes
